@@ -70,6 +70,18 @@ def _fields(df, keys, rename):
     return out
 
 
+def narrow_float(df, sg=False):
+    """True when one of the 14 shared fields is typed float16/float32: such tables are outside the quantifier (lead's ruling,
+    round 6: every loader/constructor path of the property yields float64 tables; exotic column dtypes are not covered)."""
+    try:
+        for k in (SG_KEYS if sg else EM_KEYS):
+            if k in df.columns and getattr(df[k].dtype, "kind", "") == "f" and df[k].dtype.itemsize < 8:
+                return True
+    except Exception:
+        return False
+    return False
+
+
 def all_finite(F):
     return all(np.all(np.isfinite(a)) for a in F.values())
 
